@@ -113,6 +113,10 @@ def gen_case(rng, tier, force=None):
             recs = recs[:4] + [r for r in recs[4:]]
         inputs.append(dict(refs=refs, so=so, recs=recs, fail=-1, kind='err', rd=rng.choice([1, 1, 2, 3, 4]),
                            go=(rng.choice([0, 0, 1, 2, 3]) if rng.random() < 0.3 else 0), layout=lay, wc=rng.choice([1, 2, 3])))
+        if i == 0 and k > 1 and rng.random() < 0.35:
+            # the first input's @SQ lines carry a non-standard tag: equal references of later inputs replace them
+            # in the merged header, so the links of the first input have to follow the replacement
+            inputs[-1]['tag'] = True
     # faults
     if force.get('fault', rng.random() < 0.3):
         for _ in range(rng.choice([1, 1, 2])):
